@@ -5,6 +5,9 @@ HERE = os.path.dirname(os.path.dirname(os.path.abspath(__file__)))
 
 # id -> (technique, level text, level note, design ref)
 CHECKS = {
+ "C14": ("model-based testing against a closed-form LCD schedule + metamorphic batching invariance: exhaustive 4-clock walk over two frames per enable mask/LYC, proptest histories with shrinking",
+         "For all 16 STAT enable masks x 7 LYC values two frames are delivered 4 clocks at a time and LY, mode, coincidence bit, VBlank and STAT requests of every slot are compared with models::lcd; generated histories of STAT/LYC writes and advances (4 to 200000 clocks, biased to line/mode/frame boundaries) are run on the VideoState device and through the bus, with every advance re-delivered in pieces to a second instance that must observe the same.",
+         "trusted: models::lcd; STAT requests caused by register writes are not asserted; STAT-line blocking not modelled; batches are multiples of 4", "DESIGN.md §5 C14"),
  "C13": ("model-based testing against a per-clock reference timer + metamorphic batching invariance: proptest operation histories with shrinking, exhaustive TAC-rewrite relation",
          "Generated histories of DIV/TIMA/TMA/TAC writes and time advances (1 to 200000 clocks, biased to period edges) run on the Timer device and through the bus; DIV, TIMA, TMA, TAC and the interrupt request of every operation are compared with models::timer, and every advance is re-executed split at generated cut points on a second instance that must observe the same. The TAC-rewrite glitch relation is enumerated over all 8x8 TAC pairs x 2048 divider phases.",
          "trusted: models::timer; the DIV-write edge is set-valued (not named by the property)", "DESIGN.md §5 C13"),
